@@ -1,2 +1,305 @@
--- driver stub (replaced when the model for C01 is built)
-def main : IO Unit := pure ()
+/-
+  Driver of the C01 correspondence: one request per line, one reply per line.
+
+    write <in|ascii|binary> <xp: - | tree of strings> <echo: -|0|1> <object tree>
+        -> ok M<hex main> E<hex mesh|-> P<hex pdat|-> <tree: [sections, extra_precision, echo]>
+    read <d|f> <hex path main> <hex path mesh|-> <hex path pdat|->
+        -> ok <object tree>            (the driver reads the files itself, bytes decoded latin-1)
+    chk                                -> ok | bad …   (Gen/Sections record tables = preprocess of Gen/Specs)
+
+  tree tokens:  L<n> followed by n trees |  n | i<int> | r<num>/<den> | z | inf0 | inf1 | nan | s<hex>
+-/
+import PyTough.Model.T2Data
+import PyTough.Gen.Specs
+import PyTough.Py.Proto
+open Py Model
+
+inductive J where
+  | v (x : Val)
+  | l (xs : List J)
+  deriving Inhabited
+
+def parseVal (t : String) : Val :=
+  match t.toList with
+  | ['n'] => .none
+  | ['z'] => .negZero
+  | ['n','a','n'] => .nan
+  | ['i','n','f','0'] => .inf false
+  | ['i','n','f','1'] => .inf true
+  | 'i' :: r => .int (String.ofList r).toInt!
+  | 's' :: r => .str (ofHexAux r)
+  | 'r' :: r =>
+    match (String.ofList r).splitOn "/" with
+    | [a, b] => .real (mkRat a.toInt! b.toNat!)
+    | _ => .none
+  | _ => .none
+
+partial def parseJ : List String → Option (J × List String)
+  | [] => none
+  | t :: rest =>
+    match t.toList with
+    | 'L' :: n =>
+      let n := (String.ofList n).toNat!
+      let rec go : Nat → List String → List J → Option (List J × List String)
+        | 0, ts, acc => some (acc.reverse, ts)
+        | k + 1, ts, acc => match parseJ ts with
+          | some (j, ts') => go k ts' (j :: acc)
+          | none => none
+      match go n rest [] with
+      | some (xs, ts) => some (.l xs, ts)
+      | none => none
+    | _ => some (.v (parseVal t), rest)
+
+def showVal : Val → String
+  | .none => "n"
+  | .int i => s!"i{i}"
+  | .real r => s!"r{r.num}/{r.den}"
+  | .negZero => "z"
+  | .inf n => if n then "inf1" else "inf0"
+  | .nan => "nan"
+  | .str s => "s" ++ toHex s
+
+partial def showJ : J → List String
+  | .v x => [showVal x]
+  | .l xs => s!"L{xs.length}" :: xs.flatMap showJ
+
+/-! encoders -/
+def jS (s : Str) : J := .v (.str s)
+def jB (b : Bool) : J := .v (.int (if b then 1 else 0))
+def jVs (vs : List Val) : J := .l (vs.map .v)
+def jSs (ss : List Str) : J := .l (ss.map jS)
+def jDict (d : Dict) : J := .l (d.map fun p => .l [jS p.1, .v p.2])
+def jOpt {α} (f : α → J) : Option α → J
+  | none => .l []
+  | some x => .l [f x]
+def jRP : Option RP → J
+  | none => .l []
+  | some p => .l [.v p.type, jVs p.params]
+
+def jRock (r : Rock) : J :=
+  .l [.v r.name, .v r.nad, .v r.density, .v r.porosity, jVs r.perm, .v r.conductivity, .v r.specificHeat, jDict r.extra, jRP r.rp, jRP r.cp]
+def jBlock (b : Block) : J :=
+  .l [jS b.name, .v b.nseq, .v b.nadd, jS b.rock, .v b.volume, .v b.ahtx, .v b.pmx, jOpt jVs b.centre]
+def jConn (c : Conn) : J :=
+  .l [jS c.b1, jS c.b2, .v c.nseq, .v c.nad1, .v c.nad2, .v c.direction, jVs c.dist, .v c.area, .v c.dircos, .v c.sigma]
+def jGen (g : Gener) : J :=
+  .l [jS g.block, jS g.name, .v g.nseq, .v g.nadd, .v g.nads, .v g.ltab, .v g.type, .v g.itab, .v g.gx, .v g.ex, .v g.hg, .v g.fg,
+      jVs g.time, jVs g.rate, jVs g.enthalpy]
+def jPairs (ps : List (Str × Str)) : J := .l (ps.map fun p => .l [jS p.1, jS p.2])
+def jShort (s : Short) : J := .l [jOpt .v s.frequency, jOpt jSs s.block, jOpt jPairs s.connection, jOpt jPairs s.generator]
+def jRZ : RZSub → J
+  | .radii xs => .l [jS (k "radii"), jVs xs]
+  | .equid d => .l [jS (k "equid"), jDict d]
+  | .logar d => .l [jS (k "logar"), jDict d]
+  | .layer xs => .l [jS (k "layer"), jVs xs]
+def jMM : MeshMaker → J
+  | .rz2d subs => .l [jS (k "rz2d"), .l (subs.map jRZ)]
+  | .xyz deg subs => .l [jS (k "xyz"), .v deg, .l (subs.map fun s => .l [.v s.ntype, .v s.no, .v s.del, jOpt jVs s.deli])]
+  | .minc m => .l [jS (k "minc"), .v m.type, .v m.dual, .v m.numContinua, .v m.where_, jVs m.spacing, jVs m.vol]
+
+def jData (d : T2Data) : J :=
+  .l [jS d.title, jS d.simulator, jS d.endKeyword, jSs d.sections, jSs d.extraPrecision, jB d.echo,
+      .l (d.rocks.map jRock), jDict d.parameter, .l (d.option.map fun i => .v (.int i)), jVs d.timestep, jVs d.defaultIncons,
+      .l (d.moreOption.map fun i => .v (.int i)),
+      jDict d.multi, jB d.start, jB d.noversion, jRP d.rpcap.rp, jRP d.rpcap.cp, jDict d.lineq, jDict d.solver,
+      jDict d.outputTimes.d, jOpt jVs d.outputTimes.time,
+      .l (d.blocks.map jBlock), .l (d.conns.map jConn), .l (d.gens.map jGen), jShort d.short,
+      .l (d.historyBlock.map fun i => .l [jB i.isObj, jS i.name]),
+      .l (d.historyConn.map fun i => .l [jB i.isObj, jS i.n1, jS i.n2]),
+      .l (d.historyGen.map fun i => .l [jB i.isObj, jS i.name]),
+      .l (d.incon.map fun e => .l [jS e.name, .v e.porosity, jVs e.vars, jOpt (fun (p : Val × Val) => .l [.v p.1, .v p.2]) e.seq]),
+      .l (d.indom.map fun e => .l [jS e.1, jVs e.2]),
+      .l (d.diffusion.map jVs),
+      jOpt (fun (s : Selection) => .l [jVs s.integer, jVs s.float]) d.selection,
+      .l (d.meshmaker.map jMM)]
+
+/-! decoders -/
+def dV : J → Option Val
+  | .v x => some x
+  | _ => none
+def dS : J → Option Str
+  | .v (.str s) => some s
+  | _ => none
+def dB : J → Option Bool
+  | .v (.int i) => some (i != 0)
+  | _ => none
+def dI : J → Option Int
+  | .v (.int i) => some i
+  | _ => none
+def dL {α} (f : J → Option α) : J → Option (List α)
+  | .l xs => xs.mapM f
+  | _ => none
+def dOpt {α} (f : J → Option α) : J → Option (Option α)
+  | .l [] => some none
+  | .l [x] => (f x).map some
+  | _ => none
+def dDict : J → Option Dict := dL fun
+  | .l [a, b] => do pure (← dS a, ← dV b)
+  | _ => none
+def dRP : J → Option (Option RP)
+  | .l [] => some none
+  | .l [t, ps] => do pure (some { type := ← dV t, params := ← dL dV ps })
+  | _ => none
+def dPair : J → Option (Str × Str)
+  | .l [a, b] => do pure (← dS a, ← dS b)
+  | _ => none
+
+def dRock : J → Option Rock
+  | .l [name, nad, density, porosity, perm, cond, sh, extra, rp, cp] => do
+    pure { name := ← dV name, nad := ← dV nad, density := ← dV density, porosity := ← dV porosity, perm := ← dL dV perm,
+           conductivity := ← dV cond, specificHeat := ← dV sh, extra := ← dDict extra, rp := ← dRP rp, cp := ← dRP cp }
+  | _ => none
+def dBlock : J → Option Block
+  | .l [name, nseq, nadd, rock, volume, ahtx, pmx, centre] => do
+    pure { name := ← dS name, nseq := ← dV nseq, nadd := ← dV nadd, rock := ← dS rock, volume := ← dV volume,
+           ahtx := ← dV ahtx, pmx := ← dV pmx, centre := ← dOpt (dL dV) centre }
+  | _ => none
+def dConn : J → Option Conn
+  | .l [b1, b2, nseq, nad1, nad2, dirn, dist, area, dircos, sigma] => do
+    pure { b1 := ← dS b1, b2 := ← dS b2, nseq := ← dV nseq, nad1 := ← dV nad1, nad2 := ← dV nad2, direction := ← dV dirn,
+           dist := ← dL dV dist, area := ← dV area, dircos := ← dV dircos, sigma := ← dV sigma }
+  | _ => none
+def dGen : J → Option Gener
+  | .l [block, name, nseq, nadd, nads, ltab, type, itab, gx, ex, hg, fg, time, rate, enth] => do
+    pure { block := ← dS block, name := ← dS name, nseq := ← dV nseq, nadd := ← dV nadd, nads := ← dV nads, ltab := ← dV ltab,
+           type := ← dV type, itab := ← dV itab, gx := ← dV gx, ex := ← dV ex, hg := ← dV hg, fg := ← dV fg,
+           time := ← dL dV time, rate := ← dL dV rate, enthalpy := ← dL dV enth }
+  | _ => none
+def dShort : J → Option Short
+  | .l [f, b, c, g] => do
+    pure { frequency := ← dOpt dV f, block := ← dOpt (dL dS) b, connection := ← dOpt (dL dPair) c, generator := ← dOpt (dL dPair) g }
+  | _ => none
+def dRZ : J → Option RZSub
+  | .l [kind, x] => do
+    let kd ← dS kind
+    if kd == k "radii" then pure (.radii (← dL dV x))
+    else if kd == k "equid" then pure (.equid (← dDict x))
+    else if kd == k "logar" then pure (.logar (← dDict x))
+    else if kd == k "layer" then pure (.layer (← dL dV x))
+    else none
+  | _ => none
+def dMM : J → Option MeshMaker
+  | .l [kind, subs] => do
+    if (← dS kind) == k "rz2d" then pure (.rz2d (← dL dRZ subs)) else none
+  | .l [kind, deg, subs] => do
+    if (← dS kind) == k "xyz" then
+      pure (.xyz (← dV deg) (← dL (fun
+        | .l [nt, no, del, deli] => do pure { ntype := ← dV nt, no := ← dV no, del := ← dV del, deli := ← dOpt (dL dV) deli }
+        | _ => none) subs))
+    else none
+  | .l [kind, type, dual, nc, wh, sp, vol] => do
+    if (← dS kind) == k "minc" then
+      pure (.minc { type := ← dV type, dual := ← dV dual, numContinua := ← dV nc, where_ := ← dV wh, spacing := ← dL dV sp, vol := ← dL dV vol })
+    else none
+  | _ => none
+
+def dData : J → Option T2Data
+  | .l xs =>
+   match xs.take 15, xs.drop 15 with
+   | [title, simulator, endkw, sections, xp, echo, rocks, param, option, timestep, dincons, moreopt, multi, start, nover],
+     [rp, cp, lineq, solver, otimes, otime, blocks, conns, gens, short, fo, co, go, incon, indom, diffusion, selection, mm] => do
+    pure { title := ← dS title, simulator := ← dS simulator, endKeyword := ← dS endkw, sections := ← dL dS sections,
+           extraPrecision := ← dL dS xp, echo := ← dB echo, rocks := ← dL dRock rocks, parameter := ← dDict param,
+           option := ← dL dI option, timestep := ← dL dV timestep, defaultIncons := ← dL dV dincons, moreOption := ← dL dI moreopt,
+           multi := ← dDict multi, start := ← dB start, noversion := ← dB nover, rpcap := ⟨← dRP rp, ← dRP cp⟩,
+           lineq := ← dDict lineq, solver := ← dDict solver, outputTimes := ⟨← dDict otimes, ← dOpt (dL dV) otime⟩,
+           blocks := ← dL dBlock blocks, conns := ← dL dConn conns, gens := ← dL dGen gens, short := ← dShort short,
+           historyBlock := ← dL (fun | .l [o, n] => do pure { isObj := ← dB o, name := ← dS n } | _ => none) fo,
+           historyConn := ← dL (fun | .l [o, a, b] => do pure { isObj := ← dB o, n1 := ← dS a, n2 := ← dS b } | _ => none) co,
+           historyGen := ← dL (fun | .l [o, n] => do pure { isObj := ← dB o, name := ← dS n } | _ => none) go,
+           incon := ← dL (fun
+             | .l [n, p, vs, sq] => do
+               pure { name := ← dS n, porosity := ← dV p, vars := ← dL dV vs,
+                      seq := ← dOpt (fun | .l [a, b] => do pure (← dV a, ← dV b) | _ => none) sq }
+             | _ => none) incon,
+           indom := ← dL (fun | .l [n, vs] => do pure (← dS n, ← dL dV vs) | _ => none) indom,
+           diffusion := ← dL (dL dV) diffusion,
+           selection := ← dOpt (fun | .l [a, b] => do pure { integer := ← dL dV a, float := ← dL dV b } | _ => none) selection,
+           meshmaker := ← dL dMM mm }
+   | _, _ => none
+  | _ => none
+
+def hexLines (ls : List Str) : String := toHex ls.flatten
+
+def handleWrite (mesh xp echo : String) (obj : List String) : String :=
+  let meshK : Option MeshKind := if mesh = "in" then some .infile else if mesh = "ascii" then some .ascii
+    else if mesh = "binary" then some .binary else none
+  match meshK, parseJ obj with
+  | some mk, some (j, []) =>
+    match dData j with
+    | none => "bad-object"
+    | some d =>
+      let xpArg : Option (Option (List Str)) := if xp = "-" then some none else
+        match parseJ (xp.splitOn ",") with
+        | some (jx, []) => (dL dS jx).map some
+        | _ => none
+      let echoArg : Option Bool := if echo = "-" then none else some (echo = "1")
+      match xpArg with
+      | none => "bad-xp"
+      | some xpA =>
+        match d.write { mesh := mk, xp := xpA, echo := echoArg } with
+        | .error e => "exc " ++ e.toString
+        | .ok (d', f) =>
+          let opt := fun (o : Option (List Str)) => match o with | some ls => hexLines ls | none => "-"
+          "ok M" ++ hexLines f.main ++ " E" ++ opt f.mesh ++ " P" ++ opt f.pdat ++ " " ++
+            " ".intercalate (showJ (.l [jSs d'.sections, jSs d'.extraPrecision, jB d'.echo]))
+  | _, _ => "bad-request"
+
+/-- Python text mode: universal newlines -/
+def universalNewlines : Str → Str
+  | '\r' :: '\n' :: r => '\n' :: universalNewlines r
+  | '\r' :: r => '\n' :: universalNewlines r
+  | c :: r => c :: universalNewlines r
+  | [] => []
+
+def readFileLines (path : String) : IO (List Str) := do
+  let b ← IO.FS.readBinFile path
+  pure (splitLines (universalNewlines (b.toList.map fun x => Char.ofNat x.toNat)))
+
+def pathOf (h : String) : String := String.ofList (ofHex h)
+
+def handleRead (rf main mesh pdat : String) : IO String := do
+  let m ← readFileLines (pathOf main)
+  let e ← if mesh = "-" then pure none else do pure (some (← readFileLines (pathOf mesh)))
+  let p ← if pdat = "-" then pure none else do pure (some (← readFileLines (pathOf pdat)))
+  match T2Data.read (if rf = "f" then .fortran else .default) { main := m, mesh := e, pdat := p } with
+  | .error e => pure ("exc " ++ e.toString)
+  | .ok d => pure ("ok " ++ " ".intercalate (showJ (jData d)))
+
+/-- the record tables of Gen/Sections are what `preprocess_specification` gives on the tables of Gen/Specs -/
+def selfCheck : String :=
+  let chk (tname : String) (tab : List (Str × Gen.Sections.Rec)) : List String :=
+    match Gen.Specs.findTable tname with
+    | none => [s!"no table {tname}"]
+    | some t =>
+      (if t.sections.length != tab.length then [s!"{tname}: {t.sections.length} vs {tab.length} records"] else []) ++
+      t.sections.flatMap fun sec =>
+        match Gen.Sections.lookup tab sec.name.toList with
+        | none => [s!"{tname}.{sec.name} missing"]
+        | some r =>
+          match parseSpecs (sec.specs.map String.toList) with
+          | .error _ => [s!"{tname}.{sec.name} unparseable"]
+          | .ok fs => if fs == r.fs && sec.names.map String.toList == r.names then [] else [s!"{tname}.{sec.name} differs"]
+  let bad := chk "t2data" Gen.Sections.mainTable ++ chk "t2data_xp" Gen.Sections.xpTable
+  if bad.isEmpty then "ok" else "bad " ++ "; ".intercalate bad
+
+def handle (ws : List String) : IO String :=
+  match ws with
+  | "write" :: mesh :: xp :: echo :: obj => pure (handleWrite mesh xp echo obj)
+  | ["read", rf, main, mesh, pdat] => handleRead rf main mesh pdat
+  | ["chk"] => pure selfCheck
+  | _ => pure "bad-op"
+
+partial def loop (i o : IO.FS.Stream) : IO Unit := do
+  let line ← i.getLine
+  if line.isEmpty then return ()
+  let ws := (line.trimAscii.toString.splitOn " ").filter (· ≠ "")
+  let r ← try handle ws catch e => pure ("ioerr " ++ toString e)
+  o.putStrLn r
+  loop i o
+
+def main : IO Unit := do
+  let i ← IO.getStdin
+  let o ← IO.getStdout
+  loop i o
+  o.flush
